@@ -18,6 +18,7 @@ pub fn run(entry: &str, v: &Value) -> Option<Result<String, String>> {
         "fleet_wide_broadcast" => fleet_wide_broadcast(v),
         "fleet_health_probe_malformed" => fleet_health_probe_malformed(),
         "ws_default_limits" => rt2(ws_default_limits()),
+        "transfer_registry_map" => transfer_registry_map(),
         "ws_handshake_only_hook" => ws_handshake_only_hook::run(),
         "client_survives_cancel_and_idle" => client_survives_cancel_and_idle(),
         "peer_broadcast_payloads" => peer_broadcast_payloads(),
@@ -1795,4 +1796,53 @@ mod ws_handshake_only_hook {
         rt.shutdown_background();
         Ok("handshake-aware connect callback fired once, alias present until disconnect, notify before response".into())
     }
+}
+
+// ---------------------------------------------------------------------------------------------
+// C12 through the registry: inbound ack / cancel / resume handlers reach a producer's control via
+// TransferRegistry::get(id). The registry is a plain map: the latest registration under an id is
+// the one handed out, so a signal routed through it wakes the producer parked on that control.
+fn transfer_registry_map() -> Result<String, String> {
+    use repe::stream::{TransferControl, TransferRegistry};
+    let reg: Arc<TransferRegistry<u64>> = Arc::new(TransferRegistry::new());
+    let stale = TransferControl::new(8);
+    let live = TransferControl::new(8);
+    reg.register(7, stale.clone());
+    reg.register(7, live.clone()); // a new transfer re-uses the id without an unregister in between
+    reg.register(9, TransferControl::new(8));
+    match reg.get(7) {
+        Some(c) if Arc::ptr_eq(&c, &live) => {}
+        Some(c) if Arc::ptr_eq(&c, &stale) => return Err("TransferRegistry::get(7) hands out the first control registered under the id, not the latest: signals routed through the registry reach a control nobody is parked on".into()),
+        _ => return Err("TransferRegistry::get(7) does not return a registered control".into()),
+    }
+    if reg.len() != 2 || reg.is_empty() || reg.get(8).is_some() {
+        return Err(format!("TransferRegistry of two ids reports len {}", reg.len()));
+    }
+    // a producer parked on the live control is woken by an ack routed through the registry
+    live.record_sent(8);
+    let waiter = {
+        let c = live.clone();
+        std::thread::spawn(move || {
+            let t0 = std::time::Instant::now();
+            let r = c.wait_for_credit(4, std::time::Instant::now() + Duration::from_secs(20));
+            (r.is_ok(), t0.elapsed())
+        })
+    };
+    std::thread::sleep(Duration::from_millis(200));
+    match reg.get(7) {
+        Some(c) => c.record_ack(0, 8),
+        None => return Err("registry lost id 7".into()),
+    }
+    let (ok, took) = waiter.join().map_err(|_| "waiter panicked".to_string())?;
+    if !ok || took > Duration::from_secs(10) {
+        return Err(format!("a producer parked on the control registered last under id 7 was not released by an ack routed through the registry (ok={ok}, waited {took:?})"));
+    }
+    match reg.unregister(7) {
+        Some(c) if Arc::ptr_eq(&c, &live) => {}
+        _ => return Err("unregister(7) did not return the registered control".into()),
+    }
+    if reg.get(7).is_some() || reg.len() != 1 {
+        return Err("unregister(7) left the id registered".into());
+    }
+    Ok("latest registration wins, routed ack wakes the parked producer, unregister removes".into())
 }
